@@ -144,3 +144,23 @@ REG.contract('C13', A, 'CompilerArgs.__eq__', variant='args', params={'self': CA
              ensures=[f'implies(self.compiler is other.compiler, result == seq_eq_from({VIEW}, {VIEWO}, 0))'],
              modifies=MODS + ['other._container', 'other.pre', 'other.post', 'other.needs_override_check'], floor=1,
              note='two argument lists of the same compiler are equal iff their eager meanings are — whichever of the two still has pending arguments (a == b iff b == a)')
+
+# ---- extend_preserving_lflags (round ten): the batch is split, in order, into library flags and the rest; the rest is added
+# by the ordinary += (callee contract of `extend`), the library flags by extend_direct (callee contract) — so no -l/-L of the
+# batch is ever dropped as a repeat or moved to the front, and everything else gets exactly the += meaning
+CAL = Struct('CompilerArgs', 'mesonbuild.arglist:CompilerArgs', compiler=Obj, _container=List(Str), pre=Deque(Str), post=List(Str),
+             needs_override_check=Bool, always_dedup_args=Seq(Str))
+_NF = 'nfl(self.always_dedup_args, iterable, len(iterable))'
+_LF = 'lfl(self.always_dedup_args, iterable, len(iterable))'
+REG.contract('C13', A, 'CompilerArgs.extend_preserving_lflags', params={'self': CAL, 'iterable': SeqS},
+             ensures=['view(new(self)._container, new(self).pre, new(self).post, new(self).needs_override_check) == '
+                      f'direct(view(self._container, rev(Pr(self._container, self.pre, self.post, {_NF}, len({_NF}))) + self.pre, '
+                      f'Qs(self._container, self.pre, self.post, {_NF}, len({_NF})), '
+                      f'self.needs_override_check or anyovr({_NF}, len({_NF}))), {_LF}, len({_LF}))'],
+             loops={0: Loop(invariant=['normal_flags == nfl(self.always_dedup_args, iterable, __i)',
+                                       'lflags == lfl(self.always_dedup_args, iterable, __i)',
+                                       'self._container == old_self._container', 'self.pre == old_self.pre', 'self.post == old_self.post',
+                                       'self.needs_override_check == old_self.needs_override_check'],
+                            locals={'normal_flags': List(Str), 'lflags': List(Str)})},
+             modifies=MODS, floor=4,
+             note='always_dedup_args is the class attribute (a tuple of words) read as a field that nothing modifies')
